@@ -41,7 +41,7 @@ PROB = {
 }
 PROB['google'].update({'typexref': 'Args:\n    a (zzX): the a', 'rtypexref': 'Returns:\n    zzX: the result'})
 POSITIONS = ['p1l1', 'p1l2', 'p2', 'li', 'fb', 'sections', 'after-linesep', 'directive-body', 'directive-arg', 'directive-body-line2']
-OWNERS = ['module', 'class', 'function', 'method', 'attribute', 'inherited', 'reexported', 'classfield', 'classfield+inline', 'typefield+inline', 'ivar-two-sites', 'attr-redefined', 'classtypefield', 'modvarfield', 'modtypefield', 'class-redefined', 'function-redefined', 'class-redefined-both-bad', 'inherited-rendered-first']
+OWNERS = ['module', 'class', 'function', 'method', 'attribute', 'inherited', 'reexported', 'classfield', 'classfield+inline', 'typefield+inline', 'ivar-two-sites', 'attr-redefined', 'classtypefield', 'modvarfield', 'modtypefield', 'class-redefined', 'function-redefined', 'class-redefined-both-bad', 'inherited-rendered-first', 'doc-assigned-class', 'doc-assigned-module']
 # (text on the opening line, leading lines below the quotes)
 LAYOUTS: List[Tuple[bool, List[str]]] = [(True, []), (False, []), (False, ['']), (False, ['', '']), (False, ['WS']), (False, ['TRAIL'])]
 
@@ -210,6 +210,19 @@ def module_source(owner: str, fmt: str, kind: str, pos: str, layout: Tuple[bool,
         lines += ['class K:', f'    """First definition {bad0} end."""', '    def m(self): pass', 'class K:']
         base = len(lines)
         lines += d + ['    def m(self): pass']
+    elif owner in ('doc-assigned-class', 'doc-assigned-module'):
+        # the docstring is assigned after the definition, in the same module: the text at fault is the assigned string literal
+        if nest or raw or kind in ('param', 'typexref', 'rtypexref', 'field'):
+            return None
+        d, off = doc('')
+        if owner == 'doc-assigned-class':
+            lines += ['class K:', '    "first docstring, fine"', '    def m(self): pass', 'x = 1']
+            d[0] = 'K.__doc__ = ' + d[0]
+        else:
+            lines += ['"module docstring, fine"', 'x = 1']
+            d[0] = '__doc__ = ' + d[0]
+        base = len(lines)
+        lines += d
     elif owner == 'function-redefined':
         d, off = doc('    ')
         lines += ['def f(a):', '    "first definition"', 'def f(a):']
